@@ -68,3 +68,9 @@ def _c08_mirror(v):
 @predicate("C06-dead-end-behind-generatable-loop")
 def _c06_dead_end(v):
     return v["oracle"] == "accepted-dead-end" and v["mech"].get("immediate_edge_check_passes") is True
+
+
+@predicate("C11-silent-noop-positional-schema")
+def _c11_noop(v):
+    m = v["mech"]
+    return v["oracle"] in ("middle-text", "invented-leaf", "delete-left-text") and m.get("noop") is True and m.get("flexible") is False
